@@ -86,7 +86,15 @@ impl Q32E2 {
 
     #[inline]
     pub fn neg(&mut self) {
-        self.0 = self.0.wrapping_neg();
+        // two's complement of the whole 512-bit accumulator
+        let mut b = self.to_bits();
+        let mut carry = true;
+        for u in b.iter_mut().rev() {
+            let (v, c) = (!*u).overflowing_add(carry as u64);
+            *u = v;
+            carry = c;
+        }
+        *self = Self::from_bits(b);
     }
 
     #[inline]
